@@ -134,12 +134,6 @@ func (c polCfg) build() gocql.HostSelectionPolicy {
 
 // ---- one history ----------------------------------------------------------------------------------
 
-const (
-	findGap   = "ta-tier-gap-remote-replica-late"
-	findDup   = "ta-duplicate-replica-offered-twice"
-	findEmpty = "ta-empty-ring-nil-deref"
-)
-
 type iterT struct {
 	n        int
 	next     gocql.NextHost
@@ -409,7 +403,9 @@ func (s *scen) pick(qk int, key []byte, qks string) *iterT {
 			} else if prim != nil {
 				it.reps = []*hostT{s.byInfo[prim]}
 			} else {
+				// a ring without tokens: no routing information, Pick must hand out the fallback's generator
 				it.nilPrim = true
+				it.rrType = true
 			}
 			pr := "None"
 			if prim != nil {
@@ -464,12 +460,8 @@ func (s *scen) callNext(it *iterT) bool {
 	if pv != nil {
 		it.panicked, it.done = true, true
 		s.ev("ENext %d%%nat OPanic", it.n)
-		fid := ""
-		if s.cfg.ta && s.cfg.kind != 0 && it.nilPrim {
-			fid = findEmpty
-		}
 		if it.inScope {
-			s.violate("panic", fid, fmt.Sprintf("NextHost panicked at call %d: %v", it.calls, pv))
+			s.violate("panic", "", fmt.Sprintf("NextHost panicked at call %d: %v", it.calls, pv))
 		} else {
 			s.stats["panic-counter-beyond-2^62"]++
 		}
@@ -500,11 +492,7 @@ func (s *scen) callNext(it *iterT) bool {
 	}
 	for _, x := range it.offered {
 		if x == h {
-			fid := ""
-			if s.hasDupReplica(it, h) {
-				fid = findDup
-			}
-			s.violate("no-dup", fid, fmt.Sprintf("%v offered twice by generator %d: %s then again", h, it.n, names(it.offered)))
+			s.violate("no-dup", "", fmt.Sprintf("%v offered twice by generator %d: %s then again", h, it.n, names(it.offered)))
 			break
 		}
 	}
@@ -518,16 +506,6 @@ func (s *scen) callNext(it *iterT) bool {
 		return false
 	}
 	return true
-}
-
-func (s *scen) hasDupReplica(it *iterT, h *hostT) bool {
-	n := 0
-	for _, r := range it.reps {
-		if r == h {
-			n++
-		}
-	}
-	return n >= 2
 }
 
 func (s *scen) drain(it *iterT) {
@@ -618,47 +596,6 @@ func (s *scen) finish(it *iterT) {
 	for _, h := range off {
 		inOff[h] = true
 	}
-	// trigger regions of the known findings (computed from the input only)
-	gap, dup := false, false
-	if !it.rrType {
-		t1, t2 := false, false
-		seen := map[*hostT]bool{}
-		for _, h := range it.reps {
-			if seen[h] {
-				dup = true
-			}
-			seen[h] = true
-			switch c.tier(h) {
-			case 1:
-				t1 = true
-			case 2:
-				t2 = true
-			}
-		}
-		gap = c.kind == 2 && c.nlrf && t2 && !t1
-	}
-	repeat := false
-	{
-		seen := map[*hostT]bool{}
-		for _, h := range off {
-			if seen[h] {
-				repeat = true
-			}
-			seen[h] = true
-		}
-	}
-	// which known finding (if any) explains a violation of this kind on this input:
-	// duplicate replicas explain anything that goes wrong once a host has actually been offered twice;
-	// the tier gap explains a far replica missing from the replica prefix or from the whole sequence
-	fidFor := func(kind string) string {
-		if dup && repeat {
-			return findDup
-		}
-		if gap && (kind == "replica-order" || kind == "complete") {
-			return findGap
-		}
-		return ""
-	}
 	// complete: every up host the policy knows is offered
 	for t, l := range it.lists {
 		for _, h := range l {
@@ -692,7 +629,7 @@ func (s *scen) finish(it *iterT) {
 		}
 		for _, h := range want {
 			if !inOff[h] {
-				s.violate("complete", fidFor("complete"), fmt.Sprintf("replica %v (up) was never offered: %s", h, names(off)))
+				s.violate("complete", "", fmt.Sprintf("replica %v (up) was never offered: %s", h, names(off)))
 			}
 		}
 		ok := len(off) >= len(want)
@@ -710,7 +647,7 @@ func (s *scen) finish(it *iterT) {
 			pos += len(sg)
 		}
 		if !ok {
-			s.violate("replica-order", fidFor("replica-order"), fmt.Sprintf("replicas %s (tiers %v): expected the offered sequence to start with %s, got %s", names(it.reps), s.tiersOf(it.reps), names(want), names(off)))
+			s.violate("replica-order", "", fmt.Sprintf("replicas %s (tiers %v): expected the offered sequence to start with %s, got %s", names(it.reps), s.tiersOf(it.reps), names(want), names(off)))
 			return
 		}
 		for _, h := range want {
@@ -728,17 +665,17 @@ func (s *scen) finish(it *iterT) {
 			}
 		}
 		if pos+n > len(rest) {
-			s.violate("tier-order", fidFor("tier-order"), fmt.Sprintf("tier %d: %d up hosts expected after position %d, sequence %s", t, n, pos, names(off)))
+			s.violate("tier-order", "", fmt.Sprintf("tier %d: %d up hosts expected after position %d, sequence %s", t, n, pos, names(off)))
 			return
 		}
 		if !rotationShaped(rest[pos:pos+n], l, skip) {
-			s.violate("tier-order", fidFor("tier-order"), fmt.Sprintf("tier %d (%s): offered part %s is not a rotation of the tier's up hosts; whole sequence %s", t, names(l), names(rest[pos:pos+n]), names(off)))
+			s.violate("tier-order", "", fmt.Sprintf("tier %d (%s): offered part %s is not a rotation of the tier's up hosts; whole sequence %s", t, names(l), names(rest[pos:pos+n]), names(off)))
 			return
 		}
 		pos += n
 	}
 	if pos != len(rest) {
-		s.violate("tier-order", fidFor("tier-order"), fmt.Sprintf("unexpected extra hosts at the end: %s", names(off)))
+		s.violate("tier-order", "", fmt.Sprintf("unexpected extra hosts at the end: %s", names(off)))
 		return
 	}
 	// rotation: the next pick starts every tier one host further
@@ -954,11 +891,30 @@ func (s *scen) run(sh shape) {
 			if h := s.randHost(); h != nil {
 				s.setState(h, !h.up)
 			}
-		case x < 94:
+		case x < 92:
 			if h := s.randHost(); h != nil {
 				s.op(r.Intn(4), h)
 				if r.Chance(30) {
 					s.readBack()
+				}
+			}
+		case x < 96 && s.cfg.ta && len(s.pool) > 0:
+			// a hand-made replica list for every token (repetitions, any tier mix, hosts the policy was never
+			// given): whatever the placement strategies produce, Pick must cope with it
+			n := 1 + r.Intn(4)
+			var hs []*gocql.HostInfo
+			for k := 0; k < n; k++ {
+				if k > 0 && r.Chance(35) {
+					hs = append(hs, hs[r.Intn(len(hs))])
+				} else {
+					hs = append(hs, s.randHost().info)
+				}
+			}
+			if gocql.VerifC11SetReplicas(s.pol, s.ks, hs) {
+				s.disturb()
+				s.stats["replica-lists-injected"]++
+				for k := 1 + r.Intn(3); k > 0; k-- {
+					s.drain(s.pick(2, s.randKey(), s.ks))
 				}
 			}
 		case x < 97 && sh.counters:
@@ -1119,8 +1075,8 @@ func systematic(o *hlib.Out, stats map[string]int) {
 
 // real concurrency (goroutines, no scheduler control): mutators add/remove/mark hosts while pickers Pick and
 // walk generators.  Only schedule-independent monitors are evaluated: no panic, no nil host, no host twice
-// in one generator, bounded length.  SimpleStrategy (no duplicate replicas) and four hosts that are never
-// removed (the ring always has tokens) keep the run outside the known findings.
+// in one generator, bounded length.  Every host can be removed, so the ring is at times empty.
+// (SimpleStrategy: C10's NetworkTopologyStrategy panics are not this property's business.)
 func soak(o *hlib.Out, stats map[string]int) {
 	nOps, nPicks := 400*o.Scale, 250*o.Scale
 	for variant := 0; variant < 6; variant++ {
@@ -1154,7 +1110,7 @@ func soak(o *hlib.Out, stats map[string]int) {
 				}()
 				r := hlib.NewRng(o.Seed*1000 + uint64(variant*10+g))
 				for i := 0; i < nOps; i++ {
-					h := pool[4+r.Intn(len(pool)-4)]
+					h := pool[r.Intn(len(pool))]
 					switch r.Intn(6) {
 					case 0:
 						pol.AddHost(h)
